@@ -272,6 +272,65 @@ func vc_Mysql56GTIDSet_Contains_ensures_witness(set Mysql56GTIDSet, other GTIDSe
 	return vspec.Forall(0, len(intervals), func(k int) bool { return !specIvContains(intervals[k], iv) })
 }
 
+// ---- Mysql56GTIDSet.Equal (C18) ----
+//
+// Equal compares the number of server ids and then, for every server id of set, the two interval lists position by
+// position. Both directions are decided: true => the same number of server ids and, for every server id of set, the
+// same interval list in other (so for canonical sets, where no list is empty, the same set of pairs); false => a
+// witness (different number of server ids, or a server id of set whose lists differ in length or at a position).
+
+func vc_Mysql56GTIDSet_Equal_requires(set Mysql56GTIDSet, other GTIDSet) bool {
+	_, ok := other.(Mysql56GTIDSet)
+	return ok
+}
+
+// outer loop (server ids of set, any order): every server id already produced has the same list in both sets
+func vc_Mysql56GTIDSet_Equal_loop1_inv(set Mysql56GTIDSet, other56 Mysql56GTIDSet) bool {
+	return len(set) == len(other56) && vspec.ForallKeys16(set, func(k [16]byte) bool {
+		_, present := set[SID(k)]
+		return !present || !vspec.Seen16(set, k) || (len(set[SID(k)]) == len(other56[SID(k)]) &&
+			vspec.Forall(0, len(set[SID(k)]), func(j int) bool { return set[SID(k)][j] == other56[SID(k)][j] }))
+	})
+}
+
+// inner loop: the positions compared so far agree
+func vc_Mysql56GTIDSet_Equal_loop2_inv(rangeindex int, intervals []interval, otherIntervals []interval) bool {
+	return rangeindex >= -1 && rangeindex < len(intervals) && len(intervals) == len(otherIntervals) &&
+		vspec.Forall(0, rangeindex+1, func(j int) bool { return intervals[j] == otherIntervals[j] })
+}
+
+// true: same number of server ids, and every server id of set has the same interval list in other
+func vc_Mysql56GTIDSet_Equal_ensures_same(set Mysql56GTIDSet, other GTIDSet, res bool) bool {
+	o, ok := other.(Mysql56GTIDSet)
+	if !ok || !res {
+		return true
+	}
+	return len(set) == len(o) && vspec.ForallKeys16(set, func(k [16]byte) bool {
+		_, present := set[SID(k)]
+		return !present || (len(set[SID(k)]) == len(o[SID(k)]) &&
+			vspec.Forall(0, len(set[SID(k)]), func(j int) bool { return set[SID(k)][j] == o[SID(k)][j] }))
+	})
+}
+
+// false: a witness
+func vc_Mysql56GTIDSet_Equal_ensures_differ(set Mysql56GTIDSet, other GTIDSet, res bool, other56 Mysql56GTIDSet, sid SID,
+	intervals []interval, otherIntervals []interval, rangeindex int) bool {
+	if res {
+		return true
+	}
+	if len(set) != len(other56) {
+		return true
+	}
+	if _, present := set[sid]; !present {
+		return false
+	}
+	if !(vspec.SameSlice(intervals, set[sid]) && vspec.SameSlice(otherIntervals, other56[sid])) {
+		return false
+	}
+	return len(intervals) != len(otherIntervals) ||
+		(rangeindex >= 0 && rangeindex < len(intervals) && intervals[rangeindex] != otherIntervals[rangeindex])
+}
+
 // ---- MariadbGTIDSet.Contains / Equal (C19) ----
 
 // the set holds a position of g's domain that has reached g's sequence number
